@@ -328,12 +328,16 @@ class G:
             if not nname and not nval:
                 lines.append(lay['indent'] + r.choice([b'#', b'#', b'##', b'# :', b'#:', b'# #']))
             elif nname:
-                lines.append(lay['indent'] + b'# ' + nname + b': ' + nval)
+                # blanks after the comment character and around the colon are optional
+                lines.append(lay['indent'] + b'#' + r.choice([b' ', b' ', b' ', b'', b'  ', b'\t']) + nname + r.choice([b': ', b': ', b': ', b':', b' : ', b':  ']) + nval)
             else:
-                lines.append(lay['indent'] + b'# ' + nval)
+                lines.append(lay['indent'] + b'#' + r.choice([b' ', b' ', b' ', b'', b'  ']) + nval)
         for (name, q) in entries:
             lay = self.layout_line() if varied else self.plain_line()
             nm = (b'"' + name + b'"') if lay['quote'] else name
+            if varied and r.random() < 0.04:
+                # bytes the tokenizer trims around a name may also follow it (`name-: 1`, `name" 1`): they are layout, not name
+                nm += r.choice([b'-', b' -', b'"', b'-"'])
             lines.append(lay['indent'] + nm + (b':' if lay['colon'] else b'') + lay['blanks'] + q.lit + lay['trail'])
             if varied and r.random() < 0.08:
                 lines.append(r.choice([b'', b'   ', b'\t', b'# comment at column 0', b'  ']))
